@@ -77,7 +77,8 @@ TEXT["C06"] = dict(
 
 TEXT["C14"]["technique"] += "; history relation over one caller buffer rewritten in place; enumerated nesting depths up to 10002 (thorough 65536) with an oracle independent of encoding/json"
 TEXT["C15"]["technique"] += "; history relation: matcher values reused after warm-up documents store the same as fresh ones"
-TEXT["C03"]["engine"] = "wb+sched"
+TEXT["C03"]["engine"] = "wb+sched+bb"
+TEXT["C03"]["technique"] += "; black-box metamorphic relation with the real runner (slots of test X with all tests of the program, one of which may change the working directory, == with -run ^X$ alone)"
 TEXT["C03"]["technique"] += "; the concurrency clause is explored with generated scenarios x schedules on the cooperative scheduler (serial-prediction oracle)"
 TEXT["C19"]["engine"] = "wb+sched+bb"
 TEXT["C19"]["technique"] += "; the file-k clause under concurrency is explored with standalone calls on the cooperative scheduler (incl. every schedule with <= 2 preemptions for two tests whose names differ in case only)"
@@ -95,7 +96,7 @@ NOT_APPLICABLE = {}
 
 ENGINES = [
     dict(name="sched", path="/verif/sched", serves_properties=["C03", "C06", "C19"], kind_free_text="controlled scheduler: go/parser based rewriter inserting yields, cooperative sync shim, schedule-driven runner"),
-    dict(name="bb", path="/verif/bb", serves_properties=["C01", "C05", "C07", "C08", "C11", "C12", "C19", "C20"], kind_free_text="black-box rapid properties driving a compiled, data-driven test program (real testing runner, TestMain, environment) as sub-processes"),
+    dict(name="bb", path="/verif/bb", serves_properties=["C01", "C03", "C05", "C07", "C08", "C11", "C12", "C19", "C20"], kind_free_text="black-box rapid properties driving a compiled, data-driven test program (real testing runner, TestMain, environment) as sub-processes"),
     dict(name="race", path="/verif/wb", serves_properties=["C06", "C12"], kind_free_text="the white-box binary built with -race; generated goroutine mixes"),
     dict(name="wb", path="/verif/wb", serves_properties=["C01","C02","C03","C04","C07","C09","C10","C12","C13","C14","C15","C16","C17","C18","C19","C20"], kind_free_text="white-box rapid properties compiled into package snaps via go test -overlay"),
 ]
